@@ -408,6 +408,10 @@ func (x *FnExec) evalIdent(fr *frame, name string, c *evalCtx) (Val, error) {
 		}
 		return v, nil
 	}
+	if name == "JsonOf" {
+		x.q.declareSortOnce("Blob")
+		return Val{S: x.heapGet(c.state(), "|JsonOf|", "(Array Ref Blob)"), Sort: "(Array Ref Blob)"}, nil
+	}
 	// ghost variable
 	if gv, ok := x.eng.specs.Ghosts[name]; ok {
 		return x.ghostGet(c.state(), gv, c)
